@@ -221,13 +221,21 @@ class Ctx:
         if c.kind == "Closure" or len(t["args"]) != body.arg_count:
             return None
         s_b, _ = self.sym(body)
+        same, differ = set(), set()
         for i, a in enumerate(t["args"]):
             want = sym.show(s_b.local(i + 1), s_b)
-            if self.expr(c, a) != want:
-                return None
+            (same if self.expr(c, a) == want else differ).add(want)
+        # the receiver must be handed on unchanged (what the helper calls `self.x` is the caller's
+        # `self.x`); other parameters may be values computed by the caller – atoms of the caller
+        # that speak about a parameter name the helper uses for something else are left out
+        if "self" in differ or (differ and "self" not in same and sym.show(s_b.local(1), s_b) == "self"):
+            return None
         self.__dict__.setdefault("_transparent_caller", set()).add(key)
         self.__dict__.setdefault("_caller_body", {})[key] = c
         res = self.pc_strs(c, blk)
+        if differ:
+            clash = re.compile(r"\b(%s)\b" % "|".join(re.escape(x) for x in differ))
+            res = [{a_ for a_ in d if not clash.search(a_)} for d in res]
         res = [set(d) for d in res if d] or None
         cache[key] = res
         return res
